@@ -557,7 +557,8 @@ sha1_handle_first_client_response (DBusAuth         *auth,
       if (dbus_error_has_name (&error, DBUS_ERROR_NO_MEMORY))
         {
           dbus_error_free (&error);
-          goto out;
+          /* tmp and tmp2 are not initialized yet, so we cannot go to out */
+          return FALSE;
         }
 
       _dbus_verbose ("%s: Did not get a valid username from client: %s\n",
